@@ -11,6 +11,7 @@ import (
 
 	"github.com/boz/kcache"
 	"github.com/boz/kcache/filter"
+	"github.com/boz/kcache/types/pod"
 	metav1 "k8s.io/apimachinery/pkg/apis/meta/v1"
 
 	"verif/explore"
@@ -22,13 +23,14 @@ import (
 const Bufsiz = 2 // must match cmd/c10/bufsiz
 
 type cfg struct {
-	Refilter bool // after the stream: Refilter a stalled direct filtered subscription so that it emits more events than its buffer holds
-	Name     string
-	Tree     []hx.Spec
-	Stalled  map[string]bool // node paths whose consumer / handler is stalled
-	K        int
-	Mode     string
-	Bound    int
+	TypedStalled bool // an additional typed (pod) subscription whose consumer is stalled
+	Refilter     bool // after the stream: Refilter a stalled direct filtered subscription so that it emits more events than its buffer holds
+	Name         string
+	Tree         []hx.Spec
+	Stalled      map[string]bool // node paths whose consumer / handler is stalled
+	K            int
+	Mode         string
+	Bound        int
 }
 
 // stream: versions increase; labels alternate so that a filtered clone (l=1) sees creates and deletes
@@ -76,6 +78,7 @@ type inst struct {
 	release            chan struct{} // closed when the stream has ended: stalled consumers start draining
 	healthy            int
 	finished           bool
+	typedGot           *[]string
 	rootList, wantList string
 	clock              int64
 }
@@ -129,6 +132,24 @@ func (in *inst) run() {
 			in.healthy++
 		}
 	})
+	var typedGot []string
+	typedDone := false
+	if in.c.TypedStalled {
+		ts, err := pod.VNewController(in.root.Pub).Subscribe()
+		if err != nil {
+			vs.Fail("build | typed subscribe: %v", err)
+			return
+		}
+		go func() {
+			<-in.release
+			for ev := range ts.Events() {
+				typedGot = append(typedGot, string(ev.Type())+":"+hx.ObjString(ev.Resource()))
+			}
+			typedDone = true
+		}()
+		in.typedGot = &typedGot
+		_ = typedDone
+	}
 	// the stream starts once every node is ready (events before readiness are replaced by the initial cache content)
 	hx.Walk(in.nodes, func(n *hx.Node) {
 		if r := n.Ready(); r != nil {
@@ -223,6 +244,30 @@ func (in *inst) check(r *vs.Result) []string {
 			msgs = append(msgs, fmt.Sprintf("stalled consumer lost events within its buffer | %s drained only %v of published %v (buffer %d)", n.Path, got, pub, Bufsiz))
 		}
 	})
+	if in.typedGot != nil {
+		got := *in.typedGot
+		j := 0
+		okSub := true
+		for _, g := range got {
+			for j < len(pub) && pub[j] != g {
+				j++
+			}
+			if j == len(pub) {
+				okSub = false
+				break
+			}
+			j++
+		}
+		min := in.c.K
+		if min > Bufsiz {
+			min = Bufsiz
+		}
+		if !okSub {
+			msgs = append(msgs, fmt.Sprintf("stalled consumer stream not an in-order subsequence | typed subscription drained %v, published %v", got, pub))
+		} else if len(got) < min {
+			msgs = append(msgs, fmt.Sprintf("stalled consumer lost events within its buffer | typed subscription drained only %v of published %v (buffer %d)", got, pub, Bufsiz))
+		}
+	}
 	if in.clock > 1 {
 		msgs = append(msgs, fmt.Sprintf("pipeline waits on a timer while a consumer is stalled | tree %s stalled %v: virtual time advanced to %dns during the stream although nothing in the fan-out path may wait for time", specs(in.c.Tree), keys(in.c.Stalled), in.clock))
 	}
@@ -283,7 +328,7 @@ func Property() runner.Property {
 		Level: "model_checking",
 		Rule:  "publisher trees with EventBufsiz modelled as 2 (the constant is only ever a channel capacity; checked by the transformer); a subset of consumers is stalled (plain leaf, leaf under a clone, leaf under a filtered clone, monitor with a blocking handler); the healthy consumers acknowledge each event before the next is published (their backlog <= 1 by construction); stream lengths 0..3*bufsiz; oracle: the publishing driver finishes, every healthy consumer receives the whole stream in order, a stalled consumer later drains an in-order subsequence of at least min(K, bufsiz) events",
 		Assumptions: []string{
-			"model buffer 2 instead of 100 (chanxform -bufconst EventBufsiz=2); the typed subscription position is covered by C20's typed/untyped differential",
+			"model buffer 2 instead of 100 (chanxform -bufconst EventBufsiz=2)",
 		},
 		Scenarios: func(tier string) []runner.Sc {
 			st := func(p ...string) map[string]bool {
@@ -307,6 +352,9 @@ func Property() runner.Property {
 				)
 			}
 			out = append(out, scenario(cfg{Name: "sub,sub", Tree: subsub, Stalled: st("0:sub"), K: 3, Mode: "S1"}))
+			for _, k := range []int{1, 3, 5} {
+				out = append(out, scenario(cfg{Name: "typed-sub(stalled),sub", Tree: []hx.Spec{sp("sub", 0)}, TypedStalled: true, K: k, Mode: "S2", Bound: 2}))
+			}
 			fs := []hx.Spec{sp("fsub", 0), sp("sub", 0)}
 			out = append(out, scenario(cfg{Name: "fsub,sub+refilter", Tree: fs, Stalled: st("0:fsub"), K: 3, Refilter: true, Mode: "S2", Bound: 2}))
 			out = append(out, scenario(cfg{Name: "fsub,sub+refilter", Tree: fs, Stalled: st("0:fsub"), K: 5, Refilter: true, Mode: "S2", Bound: 1}))
